@@ -245,8 +245,14 @@ func H_C04_index() {
 		back.Metatable = backmt
 		backmt.RawSetString(ev, fn)
 	}
+	generic := VChoice(2) == 1 // key given by a variable (GETTABLE/SETTABLE) instead of a constant string (…KS)
+	L.G.Global.RawSetString("kk", LString("k"))
 	if !write {
-		err := loadRun(L, "return t.k, rawget(t, 'k')", 2)
+		src := "return t.k, rawget(t, 'k')"
+		if generic {
+			src = "local key = kk; return t[key], rawget(t, key)"
+		}
+		err := loadRun(L, src, 2)
 		VAssert(err == nil, "index: read never fails here")
 		if raw {
 			VAssert(sameValue(L.Get(-2), LNumber(v)) && calls == 0, "index: a raw field is returned without consulting __index")
@@ -271,7 +277,11 @@ func H_C04_index() {
 		}
 	} else {
 		L.G.Global.RawSetString("nv", LNumber(w))
-		err := loadRun(L, "t.k = nv", 0)
+		src := "t.k = nv"
+		if generic {
+			src = "local key = kk; t[key] = nv"
+		}
+		err := loadRun(L, src, 0)
 		VAssert(err == nil, "newindex: assignment never fails here")
 		if raw || kind == 0 {
 			VAssert(sameValue(t.RawGetString("k"), LNumber(w)) && calls == 0, "newindex: present key (or no handler) is a raw store")
@@ -284,6 +294,7 @@ func H_C04_index() {
 				VAssert(sameValue(back.RawGetString("k"), LNumber(w)) && t.RawGetString("k") == LNil, "newindex: table handler receives the store")
 			case 3:
 				VAssert(calls == 1 && back.RawGetString("k") == LNil && t.RawGetString("k") == LNil, "newindex: store continues through the handler table's own __newindex")
+				VAssert(gotArgs[0] == LValue(back) && gotArgs[1] == LString("k") && sameValue(gotArgs[2], LNumber(w)), "newindex: the chained handler receives the table it is attached to, the key and the value")
 			}
 		}
 	}
